@@ -20,6 +20,8 @@ TraceLog == ndJsonDeserialize(IOEnv.TRACE_FILE)
 N == Len(TraceLog)
 VARIABLE l
 Plain == {"linearity",                 \* f(a x + b y) = a f(x) + b f(y)
+          "homogeneity",               \* f(s x) = s^d f(x) for magnitudes s from 1e-15 to 1e12, relative to s^d |f(x)|
+                                       \* (d = 1 for the linear maps, d = k for the k-th invariant)
           "roundtrip",                 \* g(f(x)) = x for the inverse pairs
           "minor-major-symmetry",      \* of voigt_to_elastic_tensor(M) and of rotated tensors
           "isometry",                  \* |X(M)| = |C(M)|_F
@@ -33,7 +35,8 @@ Plain == {"linearity",                 \* f(a x + b y) = a f(x) + b f(y)
 Cond == {"polar-orthogonal",           \* R'R = I
          "polar-symmetric",            \* stretch = stretch'
          "polar-psd",                  \* min eigenvalue of the stretch >= 0
-         "polar-product"}              \* R.U = M (right) / V.R = M (left)
+         "polar-product",              \* R.U = M (right) / V.R = M (left)
+         "polar-homogeneity"}          \* polar(s M) = (R, s U): same rotation, rescaled stretch, product s M
 UnitBudget == 1000                     \* 1e-12 in units of 1e-15
 MaxK == 1000000
 Wellformed(e) == /\ {"clause", "m", "k", "fn"} \subseteq DOMAIN e
